@@ -456,3 +456,290 @@ func ruleC09CacheKey(c *Ctx) {
 	}
 	c.Check(len(why) == 0, "c09.cache-key", key, c.P.Pos(upd.Pos()), "lookup key == store key == the text that is parsed", strings.Join(uniq(why), "; "))
 }
+
+func init() { register("C09", ruleC09StepDispatch, ruleC09DimensionWalk) }
+
+// ruleC09StepDispatch: per (selector kind, data shape) arm of Reader, what is evaluated next.
+func ruleC09StepDispatch(c *Ctx) {
+	c.Doc("c09.step-dispatch", "step dispatch (Reader), per arm: no selectors left => the data itself; NULL data => NULL; key on an object => Reader(the object's value for that key (NULL when absent), remaining selectors); key or pipe on an array => an array of the same length whose element i is Reader(element i, the SAME selectors), an element error is returned; index selectors on an array => Reader(SelectMany(array, selector), remaining selectors); keep=> on an array => Reader(SelectDimension(array, selector), remaining selectors); pipe on an object => Reader(reshaped copy, remaining selectors); any other shape => an error")
+	f := c.P.Func(modPath, "Reader")
+	if f == nil {
+		c.Unknown("c09.step-dispatch", "Reader", "-", "anchor lost")
+		return
+	}
+	selP, dataP := "", ""
+	for _, pa := range f.Params {
+		if shortType(pa.Type()) == "[]any" {
+			selP = pa.Name()
+		} else {
+			dataP = pa.Name()
+		}
+	}
+	paths, err := WalkFunc(f, WalkCfg{MaxVisits: 2, MaxPaths: 20000})
+	if err != nil {
+		c.Unknown("c09.step-dispatch", "Reader", c.P.Pos(f.Pos()), err.Error())
+		return
+	}
+	rest := func(t *Term) bool { // selectors[1:]
+		return t.Op == "slice" && t.Args[0].Op == "param" && t.Args[0].Name == selP && t.Args[1].Op == "const" && t.Args[1].Name == "1" && t.Args[2].Name == "-"
+	}
+	same := func(t *Term) bool { return t.Op == "param" && t.Name == selP }
+	type armRes struct {
+		n   int
+		why []string
+	}
+	arms := map[string]*armRes{}
+	get := func(k string) *armRes {
+		if arms[k] == nil {
+			arms[k] = &armRes{}
+		}
+		return arms[k]
+	}
+	for _, p := range paths {
+		if p.Exit != "return" || len(p.Ret) != 2 {
+			continue
+		}
+		kind, shape := "", ""
+		for _, k := range p.Order {
+			kt := p.KeyTerm[k]
+			if kt == nil || kt.Op != "ext" || kt.Name != "1" || kt.Args[0].Op != "assertok" {
+				continue
+			}
+			if v, _ := p.Assumed(k); !v {
+				continue
+			}
+			src := kt.Args[0].Args[0].String()
+			if src == "p:"+selP+"[c:0]" && kind == "" {
+				kind = kt.Args[0].Name
+			}
+			if src == "p:"+dataP && shape == "" {
+				shape = kt.Args[0].Name
+			}
+		}
+		if kind == "" {
+			continue
+		}
+		// error exits of nested calls are E-err's business
+		errNon := false
+		for k, v := range p.Asg {
+			if kt := p.KeyTerm[k]; kt != nil {
+				if x, isN := isNilTest(kt); isN && isErrorType(x) && !isTrueC(v) {
+					errNon = true
+				}
+			}
+		}
+		if errNon || (shape != "" && !p.Ret[1].Nil && !(p.Ret[1].T != nil && p.Ret[1].T.Op == "ext")) {
+			continue // error exits (type errors of a pipe, failures of nested steps) are not success paths
+		}
+		if strings.HasPrefix(shape, "func()") {
+			continue // c07.thunk-siblings
+		}
+		arm := kind + "/" + shape
+		if shape == "" {
+			arm = kind + "/other"
+		}
+		a := get(arm)
+		a.n++
+		r := ext0(p.Ret[0].T)
+		fwd := func(want func(*Term) bool, argOK func(*Term) bool, what string) {
+			if r == nil || r.Op != "call" || r.Name != "Reader" || len(r.Args) != 2 {
+				a.why = append(a.why, "returns "+avString(p.Ret[0])+" instead of continuing with "+what)
+				return
+			}
+			if !want(r.Args[1]) {
+				a.why = append(a.why, "continues with the wrong selector list: "+r.Args[1].String())
+			}
+			if !argOK(r.Args[0]) {
+				a.why = append(a.why, "continues on "+r.Args[0].String()+" instead of "+what)
+			}
+		}
+		switch {
+		case shape == "":
+			if p.Ret[1].Nil {
+				a.why = append(a.why, "a value of an unsupported shape does not yield an error")
+			}
+		case kind == "KeySelector" && (shape == "map[string]any" || shape == "Map"):
+			fwd(rest, func(t *Term) bool {
+				x, ok := callArgs(t, "SelectObject")
+				return ok && len(x) == 2 && strings.Contains(x[0].String(), "p:"+dataP) && strings.Contains(x[1].String(), "p:"+selP+"[c:0]")
+			}, "the object's value for the key")
+		case (kind == "KeySelector" || kind == "[]*PipeSelector") && shape == "[]any":
+			// result: make([]any, len(data)); element stores from Reader(item, selectors)
+			if !(p.Ret[0].T != nil && strings.HasPrefix(p.Ret[0].T.String(), "make:slice")) {
+				a.why = append(a.why, "does not return a fresh array: "+avString(p.Ret[0]))
+			}
+			for _, e := range p.Effects {
+				if e.Kind == "call" && e.Callee == "Reader" && len(e.Args) == 2 && !same(e.Args[1]) {
+					a.why = append(a.why, "an element is read with "+e.Args[1].String()+" instead of the same selectors")
+				}
+			}
+		case kind == "[]*IndexSelector" && shape == "[]any":
+			fwd(rest, func(t *Term) bool {
+				x := ext0(t)
+				if x == nil {
+					return false
+				}
+				y, ok := callArgs(x, "SelectMany")
+				return ok && len(y) == 2 && strings.Contains(y[0].String(), "p:"+dataP) && strings.Contains(y[1].String(), "p:"+selP+"[c:0]")
+			}, "SelectMany(array, the index selectors)")
+		case kind == "KeepDimension" && shape == "[]any":
+			fwd(rest, func(t *Term) bool {
+				x := ext0(t)
+				if x == nil {
+					return false
+				}
+				y, ok := callArgs(x, "SelectDimension")
+				return ok && len(y) == 2 && strings.Contains(y[0].String(), "p:"+dataP) && strings.Contains(y[1].String(), "p:"+selP+"[c:0]")
+			}, "SelectDimension(array, the selectors)")
+		case kind == "[]*PipeSelector" && (shape == "map[string]any" || shape == "Map"):
+			fwd(rest, func(t *Term) bool { return strings.HasPrefix(t.String(), "make:map") }, "the reshaped copy")
+		}
+	}
+	want := []string{"KeySelector/map[string]any", "KeySelector/[]any", "[]*IndexSelector/[]any", "KeepDimension/[]any", "[]*PipeSelector/map[string]any", "[]*PipeSelector/[]any"}
+	for _, w := range want {
+		a := arms[w]
+		if a == nil {
+			// alias spelling of the map type
+			a = arms[strings.Replace(w, "map[string]any", "Map", 1)]
+		}
+		if a == nil {
+			c.Fail("c09.step-dispatch", "Reader/"+w, c.P.Pos(f.Pos()), "no success path for this arm")
+			continue
+		}
+		c.Check(len(a.why) == 0, "c09.step-dispatch", "Reader/"+w, c.P.Pos(f.Pos()), fmt.Sprintf("%d paths continue correctly", a.n), strings.Join(uniq(a.why), "; "))
+	}
+	for k, a := range arms {
+		if strings.HasSuffix(k, "/other") {
+			c.Check(len(a.why) == 0, "c09.step-dispatch", "Reader/"+k, c.P.Pos(f.Pos()), "unsupported shape is an error", strings.Join(uniq(a.why), "; "))
+		}
+	}
+	// base cases: no selectors => data; nil data => nil
+	okBase, whyBase := false, "no path returns the data itself when no selectors are left"
+	okNil := false
+	for _, p := range paths {
+		if p.Exit != "return" || !p.Ret[1].Nil {
+			continue
+		}
+		work := 0
+		for _, e := range p.Effects {
+			if !(e.Kind == "call" && strings.HasPrefix(e.Callee, "builtin:")) {
+				work++
+			}
+		}
+		if p.Ret[0].T != nil && p.Ret[0].T.Op == "param" && p.Ret[0].T.Name == dataP && work == 0 {
+			okBase = true
+		}
+		if p.Ret[0].Nil && work == 0 {
+			okNil = true
+		}
+	}
+	c.Check(okBase && okNil, "c09.step-dispatch", "Reader/base-cases", c.P.Pos(f.Pos()), "no selectors => data; NULL data => NULL", func() string {
+		if !okBase {
+			return whyBase
+		}
+		return "NULL data does not short-circuit to NULL (a missing key would fail the next step instead of yielding NULL)"
+	}())
+}
+
+// ruleC09DimensionWalk: SelectDimension / SelectMany / Unwind.
+func ruleC09DimensionWalk(c *Ctx) {
+	c.Doc("c09.dimension-walk", "dimension walking: SelectDimension with no dimensions left returns its data; a range (m:n) slices the array with begin -> 0 and end -> len(array) defaults and recurses with the remaining dimensions; `each` maps the remaining dimensions over every element in order and returns the collected array; an index recurses into that element with the remaining dimensions; SelectMany flattens the result by len(dimensions)-1 levels (Unwind(depth): depth 0 is the identity, otherwise arrays are spliced one level and recursion continues with depth-1)")
+	f := c.P.Func(modPath, "SelectDimension")
+	if f == nil {
+		c.Unknown("c09.dimension-walk", "SelectDimension", "-", "anchor lost")
+		return
+	}
+	c.Fn("SelectDimension")
+	dims := ""
+	for _, pa := range f.Params {
+		if strings.Contains(shortType(pa.Type()), "IndexSelector") {
+			dims = pa.Name()
+		}
+	}
+	restD := func(t *Term) bool {
+		return t.Op == "slice" && t.Args[0].Op == "param" && t.Args[0].Name == dims && t.Args[1].Name == "1" && t.Args[2].Name == "-"
+	}
+	var why []string
+	n := 0
+	allInstrs(f, func(_ *ssa.BasicBlock, in ssa.Instruction) {
+		call, ok := in.(*ssa.Call)
+		if !ok || call.Common().StaticCallee() != f {
+			return
+		}
+		n++
+		if !restD(NewTB().Of(call.Common().Args[1])) {
+			why = append(why, "a recursive step does not continue with the remaining dimensions: "+NewTB().Of(call.Common().Args[1]).String())
+		}
+	})
+	if n < 3 {
+		why = append(why, fmt.Sprintf("only %d recursive steps found (range, each, index expected)", n))
+	}
+	// defaults of the range: begin==-1 -> 0 ; end==-1 -> len(array): the slice bounds are phis with those constants
+	okDef := false
+	allInstrs(f, func(_ *ssa.BasicBlock, in ssa.Instruction) {
+		sl, ok := in.(*ssa.Slice)
+		if !ok || sl.Low == nil || sl.High == nil {
+			return
+		}
+		lo, hi := NewTB().Of(sl.Low).String(), NewTB().Of(sl.High).String()
+		if strings.Contains(lo, "c:0") && strings.Contains(lo, "GetRange") && strings.Contains(hi, "builtin:len(") && strings.Contains(hi, "GetRange") {
+			okDef = true
+		}
+	})
+	if !okDef {
+		why = append(why, "the range does not default `begin` to 0 and `end` to len(array)")
+	}
+	c.Check(len(why) == 0, "c09.dimension-walk", "SelectDimension", c.P.Pos(f.Pos()), fmt.Sprintf("%d recursive steps continue with dimensions[1:]; range defaults", n), strings.Join(uniq(why), "; "))
+
+	// SelectMany: Unwind(result, len(dimensions)-1)
+	if sm := c.P.Func(modPath, "SelectMany"); sm != nil {
+		c.Fn("SelectMany")
+		ok, whySM := false, "SelectMany does not flatten by len(dimensions)-1 levels"
+		allInstrs(sm, func(_ *ssa.BasicBlock, in ssa.Instruction) {
+			call, isC := in.(*ssa.Call)
+			if !isC || call.Common().StaticCallee() == nil || call.Common().StaticCallee().Name() != "Unwind" {
+				return
+			}
+			d := NewTB().Of(call.Common().Args[1])
+			if d.Op == "bin" && d.Name == "-" && d.Args[0].Op == "call" && d.Args[0].Name == "builtin:len" && d.Args[1].Name == "1" {
+				ok = true
+			} else {
+				whySM = "SelectMany flattens by " + d.String() + " levels"
+			}
+		})
+		c.Check(ok, "c09.dimension-walk", "SelectMany", c.P.Pos(sm.Pos()), "Unwind(result, len(dimensions)-1)", whySM)
+	}
+	if uw := c.P.Func(modPath, "Unwind"); uw != nil {
+		c.Fn("Unwind")
+		var whyU []string
+		paths, _ := WalkFunc(uw, WalkCfg{MaxVisits: 1})
+		base := false
+		for _, p := range paths {
+			if p.Exit == "return" && p.Ret[0].T != nil && p.Ret[0].T.Op == "param" {
+				for k, v := range p.Asg {
+					if kt := p.KeyTerm[k]; kt != nil && kt.Op == "bin" && kt.Name == "==" && kt.Args[1].Name == "0" && isTrueC(v) {
+						base = true
+					}
+				}
+			}
+		}
+		if !base {
+			whyU = append(whyU, "depth 0 is not the identity")
+		}
+		rec := false
+		allInstrs(uw, func(_ *ssa.BasicBlock, in ssa.Instruction) {
+			if call, ok := in.(*ssa.Call); ok && call.Common().StaticCallee() == uw {
+				d := NewTB().Of(call.Common().Args[1])
+				if d.Op == "bin" && d.Name == "-" && d.Args[1].Name == "1" {
+					rec = true
+				} else {
+					whyU = append(whyU, "the recursion continues with depth "+d.String())
+				}
+			}
+		})
+		if !rec {
+			whyU = append(whyU, "nested arrays are not unwound recursively with depth-1")
+		}
+		c.Check(len(whyU) == 0, "c09.dimension-walk", "Unwind", c.P.Pos(uw.Pos()), "depth 0 identity; depth-1 recursion on nested arrays", strings.Join(whyU, "; "))
+	}
+}
